@@ -1313,7 +1313,8 @@ def signature(trace, clause, at, field):
     if field and cmd != 'lh_persist':
         cls.append('field%d' % field)
     if e.get('pv', ver) != ver:
-        cls.append('stored-version-differs-from-negotiated')
+        # the clause that fails depends on which version the stray packet happened to carry: one signature per command
+        return 'Emission/%s/stored-version-differs-from-negotiated' % cmd
     if any(not x['same'] for x in late_packets(trace, e)):
         # which clause fails first depends on the command that came next: one signature per command
         return 'Emission/%s/object-changed-after-hand-over' % cmd
